@@ -13,7 +13,7 @@ ORDER_NEUTRAL = {'reset_index', 'copy', 'astype'}
 SCREEN = 'ampycloud.utils.utils.check_data_consistency'
 
 
-def crop_effects(ctx, rule='C07-R2'):
+def crop_effects(ctx, rule='C07-R2', rule1=None):
     fx = effects(ctx)
     p = ctx.project
     f = p.func(Q, rule)
@@ -73,25 +73,25 @@ def crop_effects(ctx, rule='C07-R2'):
     else:
         sel2 = _sel_parts(labels)
     ok = sel1 is not None and sel2 is not None
-    ctx.check(ok, 'C07-R1', Q, f.node.name, f.loc(),
+    ctx.check(ok, (rule1 or ('C07-R1' if rule.startswith('C07') else rule)), Q, f.node.name, f.loc(),
               'row selections are not index(frame[condition]) terms: '
               f'{T.show(t_row[-1], maxlen=100)} / {T.show(labels, maxlen=100)}', instance='selections are frame[cond].index')
     if not ok:
         return None
     # selections are taken from the frame being modified
     f1, f2 = strip_updates(sel1[0]), strip_updates(sel2[0])
-    ctx.check(f1 == f2 == strip_updates(t.state), 'C07-R1', Q, f.node.name, f.loc(),
+    ctx.check(f1 == f2 == strip_updates(t.state), (rule1 or ('C07-R1' if rule.startswith('C07') else rule)), Q, f.node.name, f.loc(),
               'the selections are computed on a different frame than the one that is modified',
               instance='selections computed on the frame being cropped')
     ctx.sample({'cropping selections': [T.show(strip_updates(sel1[1]), maxlen=200), T.show(strip_updates(sel2[1]), maxlen=200)]})
     good, why = partition_above_limit([sel1[1], sel2[1]])
-    ctx.check(good, 'C07-R1', Q, f.node.name, f.loc(), f'cropping selections: {why}',
+    ctx.check(good, (rule1 or ('C07-R1' if rule.startswith('C07') else rule)), Q, f.node.name, f.loc(), f'cropping selections: {why}',
               facts={'first': T.show(strip_updates(sel1[1]), maxlen=300), 'second': T.show(strip_updates(sel2[1]), maxlen=300)},
               instance='selections partition {height > MSA + buffer} into type <= 1 and type > 1 (strict >)')
     # first selection is the type<=1 one
     c1 = strip_updates(sel1[1])
     is_low = any(tag(l) == 'cmp' and l[1] == 'le' and l[3] == C(1) for l in (c1[1] if tag(c1) == 'and' else (c1,)))
-    ctx.check(is_low, 'C07-R1', Q, f.node.name, f.loc(),
+    ctx.check(is_low, (rule1 or ('C07-R1' if rule.startswith('C07') else rule)), Q, f.node.name, f.loc(),
               'the blanked selection is not the type <= 1 one (first / VV hits must become non-detections, '
               'higher hit types must be dropped)', instance='type <= 1 blanked, type > 1 dropped')
     return True
